@@ -28,6 +28,26 @@ Record eprims := {
   q_str : pv -> res string                  (* str(x), x not str *)
 }.
 
+(* per-class Config as far as deserialization errors depend on it *)
+Record tcfg := {
+  tc_forbid : bool;                       (* forbid_extra_keys *)
+  tc_nba : bool;                          (* allow_deserialization_not_by_alias *)
+  tc_alias : list (string * string)       (* field name -> alias *)
+}.
+Definition no_cfg : tcfg := {| tc_forbid := false; tc_nba := false; tc_alias := [] |}.
+
+(* the key read first (alias or name) and, with allow_deserialization_not_by_alias and an alias, the second one *)
+Definition f_key (cf: tcfg) (f: sfield) : string :=
+  match assoc cf.(tc_alias) f.(sf_name) with Some a => a | None => f.(sf_name) end.
+Definition f_key2 (cf: tcfg) (f: sfield) : option string :=
+  match assoc cf.(tc_alias) f.(sf_name) with
+  | Some _ => if cf.(tc_nba) then Some f.(sf_name) else None
+  | None => None end.
+Definition allowed_of (cf: tcfg) (fds: list sfield) : list string :=
+  flat_map (fun f => f_key cf f :: match f_key2 cf f with Some k => [k] | None => [] end) fds.
+Definition extras_of (cf: tcfg) (fds: list sfield) (kvs: list (pv * pv)) : list pv :=
+  filter (fun k => negb (match k with VStr s => str_in s (allowed_of cf fds) | _ => false end)) (map fst kvs).
+
 Section LookK.
   Context {D: Type}.
   (* value[key]: first entry whose key == the given key *)
@@ -41,6 +61,7 @@ End LookK.
 Section ERun.
   Variable E : senv.
   Variable Q : eprims.
+  Variable CF : string -> tcfg.             (* class name -> Config *)
 
   Definition coerce_e (s: scalar) (v: pv) : res pv :=
     match s with
@@ -187,13 +208,23 @@ Section ERun.
           | Some k =>
               match d with
               | VDict kvs =>
+                  let cf := CF c in
                   let entries : list (pv * (pv * (pdec -> res pv))) :=
                       map (fun p => match p with (key, x) => (key, (x, ue x)) end) kvs in
+                  (* d_keys - allowed: ExtraKeysError before any field is looked at *)
+                  if cf.(tc_forbid) && negb (match extras_of cf k.(sc_fields) kvs with [] => true | _ => false end)
+                  then Exn (XExtraKeys (extras_of cf k.(sc_fields) kvs) c)
+                  else
                   r <- (fix go (fds: list sfield) : res (list (string * pv)) :=
                           match fds with
                           | [] => Ok []
                           | f :: rest =>
-                              y <- match look entries f.(sf_name) with
+                              y <- match (match look entries (f_key cf f) with
+                                          | Some p => Some p
+                                          | None => match f_key2 cf f with
+                                                    | Some k2 => look entries k2
+                                                    | None => None end
+                                          end) with
                                    | Some (x, dx) =>
                                        if is_none x && sfield_nullable f then Ok VNone
                                        else match dx (cu false f.(sf_ty)) with
@@ -263,13 +294,14 @@ Section ERun.
 
   (* the dataclass of the class table as a class of the field-loop model Errs.v: the per-field decoders
      are the typed unpackers *)
-  Definition fspec_of (f: sfield) : fspec :=
-    {| fs_name := f.(sf_name); fs_key := f.(sf_name); fs_key2 := None; fs_default := f.(sf_default);
+  Definition fspec_of (cf: tcfg) (f: sfield) : fspec :=
+    {| fs_name := f.(sf_name); fs_key := f_key cf f; fs_key2 := f_key2 cf f; fs_default := f.(sf_default);
        fs_nullable := sfield_nullable f; fs_ident := false;
        fs_dec := fun v => ue v (cu false f.(sf_ty)) |}.
 
   Definition cspec_of (k: scls) : cspec :=
-    {| cs_name := k.(sc_name); cs_fields := map fspec_of k.(sc_fields); cs_forbid_extra := false;
+    {| cs_name := k.(sc_name); cs_fields := map (fspec_of (CF k.(sc_name))) k.(sc_fields);
+       cs_forbid_extra := (CF k.(sc_name)).(tc_forbid);
        cs_discr_keys := []; cs_pre := None; cs_post := None |}.
 
   (* __context__ of the exception a dataclass position raises: for InvalidFieldValue the exception of the
@@ -277,7 +309,9 @@ Section ERun.
   Definition ue_cause (k: scls) (d: pv) : option exn :=
     match d with
     | VDict kvs =>
-        match first_bad kvs (map fspec_of k.(sc_fields)) with
+        if (CF k.(sc_name)).(tc_forbid) && negb (match extras_of (CF k.(sc_name)) k.(sc_fields) kvs with [] => true | _ => false end)
+        then None else
+        match first_bad kvs (map (fspec_of (CF k.(sc_name))) k.(sc_fields)) with
         | Some (f, BadInvalid v) => match fs_dec f v with Exn e => Some e | Ok _ => None end
         | _ => None end
     | _ => None end.
